@@ -446,6 +446,115 @@ func checkC17(c *Ctx) {
 		}
 	}
 
+	// ------------------------------------------------------------------ O2
+	// a message taken off the destination's queue is written: from the receive, every path to the next
+	// receive (or out of the loop) passes the call that puts it on the connection.  Taking the message first
+	// and giving up on it when the peer cannot be reached loses an accepted message per failed attempt.
+	{
+		const O2 = "C17.O2"
+		c.Rule(O2, "a dequeued message is put on the connection before the next one is taken", 1)
+		writes := func(g *ssa.Function) bool {
+			for _, f := range deepFuncs(g) {
+				for _, in := range instrsOf(f) {
+					if cl, ok := in.(*ssa.Call); ok {
+						if o := calleeObj(&cl.Call); o != nil && o.Name() == "Write" && len(cl.Call.Args) >= 1 && isLoadOfField(cl.Call.Args[0], fConn) {
+							return true
+						}
+					}
+				}
+			}
+			return false
+		}
+		nRecv := 0
+		for _, in := range instrsDeep(sendMessages) {
+			rv, ok := in.(*ssa.UnOp)
+			if !ok || rv.Op != token.ARROW {
+				continue
+			}
+			if _, isChan := rv.X.Type().Underlying().(*types.Chan); !isChan {
+				continue
+			}
+			// the queue of outgoing messages (element type: pointer to the message struct that send takes)
+			elemOK := false
+			if ch, ok := rv.X.Type().Underlying().(*types.Chan); ok && len(send.Params) > 0 {
+				elemOK = types.Identical(ch.Elem(), send.Params[len(send.Params)-1].Type())
+			}
+			if !elemOK {
+				continue
+			}
+			nRecv++
+			var msgVal ssa.Value = rv
+			if rv.CommaOk {
+				for _, r := range *rv.Referrers() {
+					if e, ok := r.(*ssa.Extract); ok && e.Index == 0 {
+						msgVal = e
+					}
+				}
+			}
+			isSend := func(x ssa.Instruction) bool {
+				cl, ok := x.(*ssa.Call)
+				if !ok {
+					return false
+				}
+				g := staticCallee(&cl.Call)
+				if g == nil || !writes(g) {
+					return false
+				}
+				for _, a := range cl.Call.Args {
+					if strip(a) == strip(msgVal) || sl17(m).Slice(a)[msgVal] {
+						return true
+					}
+				}
+				return false
+			}
+			// search: from the receive to the receive again, or to a return, avoiding the send
+			fn := rv.Parent()
+			type st struct {
+				b   *ssa.BasicBlock
+				idx int
+			}
+			seen := map[st]bool{}
+			stack := []st{{rv.Block(), instrIndex(rv) + 1}}
+			lost := false
+			for len(stack) > 0 && !lost {
+				cur := stack[len(stack)-1]
+				stack = stack[:len(stack)-1]
+				if seen[cur] {
+					continue
+				}
+				seen[cur] = true
+				met := false
+				for i := cur.idx; i < len(cur.b.Instrs); i++ {
+					x := cur.b.Instrs[i]
+					if isSend(x) {
+						met = true
+						break
+					}
+					if x == ssa.Instruction(rv) {
+						lost = true // the next message is taken without this one having been written
+						break
+					}
+					if _, isRet := x.(*ssa.Return); isRet {
+						lost = true
+						break
+					}
+				}
+				if met || lost {
+					continue
+				}
+				for _, s2 := range cur.b.Succs {
+					stack = append(stack, st{s2, 0})
+				}
+			}
+			_ = fn
+			c.Check(!lost, O2, FuncName(rv.Parent()), "dequeued message is written", m.Pos(rv.Pos()), "every path from <-queue to the next receive passes send(msg)",
+				"a message is taken off the destination's queue and, on some path (e.g. when connecting fails), the loop goes on to the next message without writing it: an accepted message is lost whenever the peer is unreachable at that moment")
+		}
+		if nRecv == 0 {
+			c.Bad(O2, FuncName(sendMessages), "receive from the destination's queue", "-", "the writer loop does not take messages off a queue of outgoing messages")
+		}
+	}
+
 	// ------------------------------------------------------------------ P1
 	// panics reachable from Send / sendMessages (static calls and closures created there)
 	allowed := map[string]string{
@@ -585,4 +694,15 @@ func panicText(p *ssa.Panic) string {
 		return "(" + render(cl) + ")"
 	}
 	return "(" + types.TypeString(v.Type(), shortQual) + ")"
+}
+
+var sl17cache = map[*Module]*Slicer{}
+
+func sl17(m *Module) *Slicer {
+	if s, ok := sl17cache[m]; ok {
+		return s
+	}
+	s := NewSlicer(m, PkgNet)
+	sl17cache[m] = s
+	return s
 }
